@@ -16,7 +16,7 @@ CHECKS = {
     technique="Coq proof (invariant over client event histories, refutation of the pre-fix behaviour) + differential correspondence against a scripted live server",
     design="§2 C15"),
  "C08": dict(
-    text="Partial. Theorems C08_callback_grammar (for every history of accept/data/EOF/error/idle-time-out/write-failure events and every descriptor, the callbacks follow (connection input* disconnection release)* and the peer table holds exactly the descriptors still connected), C08_every_prefix_well_formed, C08_once_each (disconnections = releases = connections, +1 while open), C08_no_peer_left, C08_peer_table_has_no_duplicates, by induction over event histories of the worker's transition system. Tied to /repo by live listeners (raw Tcp::Handler and Http::Endpoint with 600 ms time-outs, 1-3 workers, 1-12 concurrent clients per round, up to 30 rounds) whose per-peer callback logs, callbacks-after-disconnection count and /proc/self/fd delta against the idle baseline are compared with the model's log of the same history. Residue: descriptor release is observed through /proc/self/fd, epoll interest and close() are not instrumented; kernel event delivery is the oracle.",
+    text="Partial. Theorems C08_callback_grammar (for every history of accept/data/EOF/error/idle-time-out/write-failure events and every descriptor, the callbacks follow (connection input* disconnection release)* and the peer table holds exactly the descriptors still connected), C08_every_prefix_well_formed, C08_once_each (disconnections = releases = connections, +1 while open), C08_no_peer_left, C08_peer_table_has_no_duplicates, by induction over event histories of the worker's transition system; C08_worker_never_touches_foreign_descriptor (with the write table prepared by the acceptor thread and poll results handled in two halves, the guarded dispatch never re-arms a descriptor outside its peer table, for every history) and C08_refuted_unguarded_writable_half (the 5-event history on which the first version of a fix aborted the worker). Tied to /repo by live listeners (raw Tcp::Handler and Http::Endpoint with 600 ms time-outs, 1-3 workers, 1-12 concurrent clients per round, up to 30 rounds) whose per-peer callback logs, callbacks-after-disconnection count and /proc/self/fd delta against the idle baseline are compared with the model's log of the same history. Residue: descriptor release is observed through /proc/self/fd, epoll interest and close() are not instrumented; kernel event delivery is the oracle.",
     note="Closed under the global context. Trusted: harness/h_lifecycle.cc, the behaviour->event translation in ocaml/driver.ml (lifecycle_case).",
     technique="Coq proof (invariant by induction over connection-event histories) + differential correspondence of callback logs and descriptor balance on live listeners",
     design="§2 C08"),
